@@ -325,8 +325,16 @@ def _run_e1c(prog, rep):
             pulls = set()
             for b in blocks:
                 t = body.term(b)
-                if t["k"] == "call" and is_callee(t, r"functions::Parameters::param$", r"Iterator::next$", r"Iterator>::next$"):
+                if t["k"] == "call" and is_callee(t, r"functions::Parameters::param$"):
                     pulls.add(b)
+                elif t["k"] == "call" and is_callee(t, r"Iterator::next$", r"Iterator>::next$"):
+                    # only an iterator that exists before the loop bounds it (an inner loop's iterator is created afresh on every
+                    # round of the outer loop — a work-list loop `while let Some(x) = pending.pop() { for y in x.. { pending.push(..) } }`
+                    # is not bounded by its inner `for`)
+                    recv = tr.operand(t["args"][0])
+                    creators = [x for x in walk(recv) if x[0] == "call"]
+                    if (creators and creators[0][4] not in blocks) or (not creators and strip(recv)[0] in ("arg", "upvar", "place")):
+                        pulls.add(b)
             if pulls and not cycle_avoiding(body, header, blocks, pulls):
                 stats["finite-iterator"] += 1
                 rep.ok("E1.c", key, where, "every iteration pulls from the caller's finite parameter/iterator stream")
